@@ -46,15 +46,28 @@ fn range_text(f: &Field) -> String {
 
 fn attr_text(f: &Field) -> String {
     let stride = match f.array {
-        Some(a) if a.explicit => format!(", stride = {}", a.stride),
-        _ => String::new(),
+        Some(a) if a.explicit => Some(format!("stride = {}", a.stride)),
+        _ => None,
     };
     let single_bit = f.ranges.len() == 1 && f.ranges[0].0 == f.ranges[0].1;
-    if f.kind == Kind::Bool || (single_bit && f.qualified) {
-        format!("#[bit({}, {}{})]", f.ranges[0].0, f.access.text(), stride)
+    let (name, range) = if f.kind == Kind::Bool || (single_bit && f.qualified) {
+        ("bit", format!("{}", f.ranges[0].0))
     } else {
-        format!("#[bits({}, {}{})]", range_text(f), f.access.text(), stride)
-    }
+        ("bits", range_text(f))
+    };
+    let access = f.access.text().to_string();
+    // the parser takes the arguments in any order
+    let order: [usize; 3] = match f.attr_order {
+        1 => [0, 2, 1],
+        2 => [1, 0, 2],
+        3 => [2, 0, 1],
+        4 => [1, 2, 0],
+        5 => [2, 1, 0],
+        _ => [0, 1, 2],
+    };
+    let parts = [Some(range), Some(access), stride];
+    let args: Vec<String> = order.iter().filter_map(|&k| parts[k].clone()).collect();
+    format!("#[{}({})]", name, args.join(", "))
 }
 
 fn elem_type(f: &Field, j: usize) -> String {
@@ -131,7 +144,7 @@ pub fn layout_module(l: &Layout) -> String {
         let w = f.value_width();
         match &f.kind {
             Kind::EnumExh => {
-                let discs: Vec<u128> = (0..(1u128 << w)).collect();
+                let discs = f.exhaustive_variants();
                 enum_decl(&mut o, j, w, &discs, true);
             }
             Kind::EnumOpt { discs } => {
